@@ -250,4 +250,20 @@ example :
   intro hist
   decide
 
+/-- `exactly_once` covers the iterator's provided methods: pulls by `nth` / `nth_back` (skipped
+items are dropped), then `count`, `fold`, `last` or `rfold` instead of a plain drop — 8 ids, each
+with exactly one drop/return event -/
+example :
+    let hist : List (Option Nat × Op) :=
+      [(none, .push), (none, .push), (none, .push), (none, .push),
+       (none, .drain 0 2 [.nth 1] .count), (none, .push), (none, .drain 1 3 [] .fold),
+       (none, .push), (none, .push), (none, .intoIter [.nthBack 1] .last), (none, .push)]
+    CleanHist hist ∧ (run hist (initInline 4)).v.h.alive = true ∧
+      (step none .dropVec (run hist (initInline 4))).2.mem.next = 8 ∧
+      (List.range 8).all (fun a =>
+        (step none .dropVec (run hist (initInline 4))).2.mem.trace.count (.drop a) +
+          (step none .dropVec (run hist (initInline 4))).2.mem.trace.count (.ret a) == 1) := by
+  intro hist
+  decide
+
 end HipVerif.Props.C14
